@@ -2303,6 +2303,41 @@ def generate_w3jkern(fns, gen_dir, write_if_changed):
     kt.float_fns = {"Xf": "W3j_Xf", "Zf": "W3j_Zf"}
     k, txt = kt.translate(lean_name="Wigner3jCalculator_calculate")
     out.append("/-- `Wigner3jCalculator.calculate(j2, j3, m2, m3)` -/\n" + txt)
+    sig = {k.name: [(p, k.kinds[p]) for p in k.params]}
+    # ---- the front end `Wigner3j(j_1, j_2, j_3, m_1, m_2, m_3)`: the returned double is stored in `result[0]` ------------------------
+    fdw = find_function(tree, "Wigner3j")
+    if [a.arg for a in fdw.args.args] != ["j_1", "j_2", "j_3", "m_1", "m_2", "m_3"]:
+        raise TranslationError("Wigner3j: signature")
+    wb = [s for s in _copy.deepcopy(fdw.body) if not (isinstance(s, ast.Expr) and isinstance(s.value, ast.Constant))]
+    if [nfkc(ast.unparse(x)) for x in wb[-3:]] != ["calculator = Wigner3jCalculator(j_2, j_3)", "w3j = calculator.calculate(j_2, j_3, m_2, m_3)", "return w3j[j_1]"]:
+        raise TranslationError("Wigner3j: tail " + str([nfkc(ast.unparse(x)) for x in wb[-3:]]))
+    wb = wb[:-3] + ast.parse("Wigner3jCalculator_calculate(workspace, j_2 + j_3 + 1, j_2, j_3, m_2, m_3)\nreturn workspace[j_1]").body
+
+    class RetOut(ast.NodeTransformer):      # `return X` -> `result[0] = X; return`
+        def visit_Return(self, node):
+            return [ast.Assign(targets=[ast.Subscript(value=ast.Name(id="result", ctx=ast.Load()), slice=ast.Constant(value=0), ctx=ast.Store())], value=node.value),
+                    ast.Return(value=None)]
+    wb = [y for s in wb for y in (lambda r: r if isinstance(r, list) else [r])(RetOut().visit(s))]
+    wb = [y for s in wb for y in (lambda r: r if isinstance(r, list) else [r])(_AlgRewrite(False).visit(s))]     # (tuple assignments evaluate their right-hand sides first)
+    wb = _cps_returns(wb, "Wigner3j")
+    fdk = ast.parse("def Wigner3j(result, workspace, j_1, j_2, j_3, m_1, m_2, m_3):\n    pass\n").body[0]
+    fdk.body = wb
+    ast.fix_missing_locations(fdk)
+    kt = KTr(fns_local, {"Wigner3jCalculator_calculate": k}, set(), fdk)
+    kt.force_kinds = {"workspace": ARR, "result": ARR}
+    k2, txt2 = kt.translate(lean_name="Wigner3j")
+    out.append("/-- `Wigner3j(j_1, j_2, j_3, m_1, m_2, m_3)`: the returned double is stored in `result[0]`; `workspace` is the array of the fresh\n"
+               "    `Wigner3jCalculator(j_2, j_3)` the function constructs (size `j_2 + j_3 + 1`) -/\n" + txt2)
+    sig[k2.name] = [(p, k2.kinds[p]) for p in k2.params]
+    fdc = find_function(tree, "clebsch_gordan")
+    rc = [s for s in fdc.body if not (isinstance(s, ast.Expr) and isinstance(s.value, ast.Constant))]
+    if len(rc) != 1 or nfkc(ast.unparse(rc[0])) != "return (-1.0) ** (j_1 - j_2 + m_3) * math.sqrt(2 * j_3 + 1) * Wigner3j(j_1, j_2, j_3, m_1, m_2, -m_3)":
+        raise TranslationError("clebsch_gordan: " + nfkc(ast.unparse(rc[0])) if rc else "clebsch_gordan")
+    out.append("/-- `clebsch_gordan(j_1, m_1, j_2, m_2, j_3, m_3) = (-1.)**(j_1-j_2+m_3) * math.sqrt(2*j_3+1) * Wigner3j(j_1, j_2, j_3, m_1, m_2, -m_3)`:\n"
+               "    the factor that multiplies the value `Wigner3j` leaves in `result[0]` (left to right, as written) -/\n"
+               "def clebsch_gordan (result workspace : Nat) (j_1 m_1 j_2 m_2 j_3 m_3 : Int) (st : φ) : α :=\n"
+               "  (((Scalar.ofInt ((-1 : Int) ^ (Int.natAbs ((j_1 - j_2) + m_3))) : α) *. (Scalar.sqrt (Scalar.ofInt (((2 : Int) * j_3) + (1 : Int)) : α)))\n"
+               "    *. (frd (α := α) (Wigner3j (α := α) result workspace j_1 j_2 j_3 m_1 m_2 (- m_3) st) result (0 : Int)))\n")
     out.append("end\nend Gen\n")
     write_if_changed(os.path.join(gen_dir, "W3jKern.lean"), "\n".join(out))
-    return {k.name: [(p, k.kinds[p]) for p in k.params]}
+    return sig
